@@ -139,7 +139,7 @@ def c20(res: Result):
                           (3, 8), "q", tail=[{"op": "build"}, {"op": "summary"}, {"op": "api"}, {"op": "cmp", "cmpops": [FULL_BFS]}])
     tasks += feature_tasks("fs", [[{"op": "build"}, {"op": "summary"}], [FULL_BFS, {"op": "allseeds"}, {"op": "summary"}],
                                   [{"op": "exp", "n": 1}, {"op": "cmp", "cmpops": [FULL_BFS]}, {"op": "cmp", "cmpops": []}, {"op": "cmp", "cmpops": [{"op": "exp", "n": 1}]}]])
-    invs = ["Inv_PROJ", "Inv_DepthExact", "Inv_IndexExact", "Inv_QUERY", "Inv_C01"]
+    invs = ["Inv_PROJ", "Inv_DepthExact", "Inv_IndexExact", "Inv_QUERY", "Inv_C01", "Inv_SummaryOnce"]
     res.cov["rule"] = ("Same history generator as C04 extended with skip operations and pickling; after every call TLC compares ids, order, "
                        "depths and the key index with the model and checks depth = longest root path, depth() = max, ids contiguous, "
                        "len() = count on the logged state. find_node queries (existing spaces, proper sub/superspaces, random spaces), parsed "
